@@ -16,7 +16,7 @@
 (*   cli/cli.go        createMarshaler (flag precedence), printValues       *)
 (*                     (terminators), rawMarshaler    -> MkCfg, Stdout      *)
 (*   func.go           funcToJSON, funcToString, funcFromJSON               *)
-(*                                                    -> ToJson, ToStr, Norm*)
+(*                                                    -> FuncToJSON, FuncToString, Norm*)
 (*                                                                          *)
 (* and, independent of the code, a JSON reader (Dec, RFC 8259 + valid       *)
 (* UTF-8), the removal of insignificant white space (Squeeze), of SGR       *)
@@ -199,9 +199,9 @@ Enc(v) ==
            \o <<RBrace>>
 
 \* func.go ------------------------------------------------------------------
-ToJson(v) == VStr(Enc(v))                                   \* funcToJSON; @json
-ToStr(v) == IF v.t = "str" THEN v ELSE ToJson(v)            \* funcToString; @text; "\(...)"
-Interp(pre, v, post, json) == VStr(pre \o (IF json THEN ToJson(v) ELSE ToStr(v)).b \o post)   \* @json "pre\(.)post" etc.
+FuncToJSON(v) == VStr(Enc(v))                                   \* funcToJSON; @json
+FuncToString(v) == IF v.t = "str" THEN v ELSE FuncToJSON(v)            \* funcToString; @text; "\(...)"
+Interp(pre, v, post, json) == VStr(pre \o (IF json THEN FuncToJSON(v) ELSE FuncToString(v)).b \o post)   \* @json "pre\(.)post" etc.
 
 \* ---------------------------------------------------------------------------
 \* cli/color.go
